@@ -134,6 +134,9 @@ type install struct {
 	bailout bool
 	// subParse: parties occasionally run an independent nested parser before calling next()
 	subParse bool
+	// syntax (C16 only): a plugin that defines syntax of its own with the public parse helpers is installed first:
+	// `lambda(a, b) expr` (ParseFunctionParameters + ParseExpression) and `unless (c) { ... }` (ParseBlockStatement)
+	syntax bool
 	// builds: how many parsers are built (and parsed) from the same builder; lateAdds[b] is the
 	// kind of party installed on the builder just before build b (0 = none)
 	builds   int
@@ -309,7 +312,72 @@ func specificPrefix(p *parser.Parser) ast.Expression {
 func newInstallation(in *install, m xutil.Mode, ch *kernel.Chooser, r *recorder, st *kernel.Stats) *installation {
 	lb := lexer.NewBuilder()
 	pb := parser.NewBuilder(lb).WithTolerantMode(m.Tolerant).WithSmartSemicolon(m.Smart)
+	if in.syntax {
+		installSyntaxPlugin(pb)
+	}
 	return &installation{lb: lb, pb: pb, in: in, m: m, ch: ch, r: r, st: st}
+}
+
+type lambdaNode struct {
+	Tok    token.Token
+	Params []*ast.Identifier
+	Body   ast.Expression
+}
+
+func (n *lambdaNode) WriteTo(cw *ast.CodeWriter) { cw.WriteString("lambda") }
+func (n *lambdaNode) Precedence() int            { return parser.LOWEST }
+
+// installSyntaxPlugin: syntax defined by a plugin, written with the parser's public helpers the way the README's
+// plugins are. Nothing in it touches the context stack: what the helpers push they must pop.
+func installSyntaxPlugin(pb *parser.Builder) {
+	pb.UseExpressionInterceptor(func(p *parser.Parser, next func() ast.Expression) ast.Expression {
+		if p.CurrentToken.Type == token.IDENT && p.CurrentToken.Literal == "lambda" && p.PeekToken.Type == token.LPAREN {
+			n := &lambdaNode{Tok: p.CurrentToken}
+			p.NextToken() // (
+			n.Params = p.ParseFunctionParameters()
+			p.NextToken() // first token of the body expression
+			n.Body = p.ParseExpression()
+			return n
+		}
+		return next()
+	})
+	pb.UseStatementInterceptor(func(p *parser.Parser, next func() ast.Statement) ast.Statement {
+		if p.CurrentToken.Type == token.IDENT && p.CurrentToken.Literal == "unless" && p.PeekToken.Type == token.LPAREN {
+			st := &ast.IfStatement{Token: p.CurrentToken}
+			p.NextToken() // (
+			p.NextToken()
+			st.Condition = p.ParseExpression()
+			if !p.ExpectToken(token.RPAREN) || !p.ExpectToken(token.LBRACE) {
+				return nil
+			}
+			st.ThenBranch = p.ParseBlockStatement()
+			return st
+		}
+		return next()
+	})
+}
+
+var syntaxPieces = []string{
+	"lambda(a, b) a + b",
+	"let k = lambda(a) a * 2",
+	"f(lambda() 1, 2)",
+	"unless (a) { u; v = 1 }",
+	"unless (a) {\n unless (b) { w }\n x2\n}",
+	"unless (lambda(q) q) { let z = lambda(a, b) b\n z }",
+	"unless (a) { }",
+	"lambda() 0",
+}
+
+func syntaxPrefix(ch *kernel.Chooser) string {
+	var sb strings.Builder
+	for i, n := 0, 1+ch.Choose(3); i < n; i++ {
+		sb.WriteString(syntaxPieces[ch.Choose(len(syntaxPieces))])
+		if ch.Bool(1, 2) {
+			sb.WriteString(";")
+		}
+		sb.WriteString("\n")
+	}
+	return sb.String()
 }
 
 // build constructs builders with all parties of in installed.
@@ -1231,6 +1299,29 @@ func (e *Engine) Run(prop string, ch *kernel.Chooser, st *kernel.Stats) kernel.R
 		}
 	}
 	in := drawInstall(ch, forC16)
+	// C16: syntax defined by a plugin (public parse helpers) precedes the program; the program's nesting ground
+	// truth applies to the tokens after it, the prefix has a ground truth of its own (plain blocks, no function)
+	ordShift, syntaxRun := 0, false
+	var prefixDepth []int
+	if forC16 && valid && text == p.Text && ch.Bool(1, 6) {
+		pre := syntaxPrefix(ch)
+		if ptoks, ppan := xutil.LexAll(lexer.NewBuilder(), pre, len(pre)+8); ppan == nil && len(ptoks) > 0 {
+			depth := 0
+			for _, t := range ptoks[:len(ptoks)-1] {
+				if t.Type == token.RBRACE {
+					depth--
+				}
+				prefixDepth = append(prefixDepth, depth)
+				if t.Type == token.LBRACE {
+					depth++
+				}
+			}
+			in.syntax, syntaxRun = true, true
+			text, valid, faultDesc = pre+p.Text, false, "plugin-syntax-prefix"
+			ordShift = len(prefixDepth)
+			st.Inc("probe.plugin_defined_syntax_using_public_parse_helpers")
+		}
+	}
 	st.Inc(fmt.Sprintf("installs.kT%d", in.kT))
 	if in.kS == 8 && in.kE == 8 && in.kT == 8 {
 		st.Inc("probe.eight_of_each_kind")
@@ -1272,12 +1363,12 @@ func (e *Engine) Run(prop string, ch *kernel.Chooser, st *kernel.Stats) kernel.R
 
 	// 1. reference run: exactly one pass-through observer of each kind
 	ref := &recorder{posIndex: posIndex, nTok: len(toks)}
-	refIn := install{kT: 1, kS: 1, kE: 1, order: []byte("TSE"), viaInstall: []bool{false, false, false}}
+	refIn := install{kT: 1, kS: 1, kE: 1, order: []byte("TSE"), viaInstall: []bool{false, false, false}, syntax: in.syntax}
 	if forC16 && in.kS == 0 {
-		refIn = install{kT: 1, kE: 1, order: []byte("TE"), viaInstall: []bool{false, false}}
+		refIn = install{kT: 1, kE: 1, order: []byte("TE"), viaInstall: []bool{false, false}, syntax: in.syntax}
 		st.Inc("probe.no_statement_party_installed")
 	} else if forC16 && in.kE == 0 {
-		refIn = install{kT: 1, kS: 1, order: []byte("TS"), viaInstall: []bool{false, false}}
+		refIn = install{kT: 1, kS: 1, order: []byte("TS"), viaInstall: []bool{false, false}, syntax: in.syntax}
 		st.Inc("probe.no_expression_party_installed")
 	}
 	refOut := observe(build(refIn, m, ch, ref, kernel.NewStats()), text, ref)
@@ -1521,17 +1612,27 @@ func (e *Engine) Run(prop string, ch *kernel.Chooser, st *kernel.Stats) kernel.R
 			// (not after a bail-out: the parse continued from the middle of a construct)
 			// Statements fused on one line keep their nesting: in tolerant mode (which parses them as separate
 			// statements) the same ground truth applies, provided the removed separator was not a `;` token.
-			nestingKnown := valid || (fusedOnly && m.Tolerant && len(toks) == len(p.Toks)+1)
+			nestingKnown := valid || (fusedOnly && m.Tolerant && len(toks) == len(p.Toks)+1) || (syntaxRun && len(toks) == ordShift+len(p.Toks)+1)
 			if nestingKnown && !valid {
 				st.Inc("probe.nesting_checked_on_fused_statements_in_tolerant_mode")
 			}
 			if nestingKnown && !inst.bailed {
 				for _, rr := range []*recorder{ref, rec} {
 					for _, c := range rr.ctxs {
-						if c.ord < 0 || c.ord >= len(p.Toks) {
+						if c.ord < 0 || c.ord-ordShift >= len(p.Toks) {
 							continue
 						}
-						gt := p.Toks[c.ord]
+						var gt gen.Tok
+						if c.ord < ordShift {
+							// inside the plugin-defined prefix: top level, or inside a plain block of an `unless`
+							gt = gen.Tok{Text: c.tokLit, Ctx: gen.CtxGlobal, CtxDepth: prefixDepth[c.ord]}
+							if prefixDepth[c.ord] > 0 {
+								gt.Ctx = gen.CtxBlock
+							}
+							st.Inc("probe.context_asked_inside_plugin_defined_syntax")
+						} else {
+							gt = p.Toks[c.ord-ordShift]
+						}
 						kindName := map[byte]string{'S': "statement", 'E': "expression"}[c.kind]
 						if gt.CtxDepth >= 5 {
 							st.Inc("probe.depth_ge5")
@@ -1721,7 +1822,7 @@ func init() {
 		},
 		RequiredProbes: map[string][]string{
 			"C04": {"probe.reentrant_invocations", "probe.reentrant_at_depth_ge3", "probe.reentrant_party_before_passthrough_party", "probe.installed_via_plugin", "probe.malformed_with_errors_under_many_interceptors", "probe.eight_of_each_kind", "probe.builder_reused_for_another_parser", "probe.party_installed_between_two_builds", "probe.nested_parser_run_inside_interceptor", "probe.reentrant_via_specific_public_parse_function", "probe.plugin_uses_captured_builder", "probe.plugin_installs_nested_plugin", "fault.odd_prefix", "probe.statement_step_requested_through_public_ParseStatement", "probe.registered_operator_stands_in_for_a_builtin_one", "probe.operand_requested_through_ParseExpressionWithPrecedence", "probe.transparency_with_registered_operators", "probe.transparency_with_infix_operator_above_member_level"},
-			"C16": {"probe.depth_ge5", "probe.function_body_direct", "probe.funcexpr_in_call_argument", "probe.funcexpr_in_object_value", "probe.funcexpr_in_condition", "probe.final_state_checked_on_erroring_input", "probe.nested_parser_run_inside_interceptor", "probe.builder_reused_for_another_parser", "probe.bailout_recovered_by_outer_interceptor", "probe.bailout_thrown_inside_function_body", "probe.reentrant_via_ParseFunctionExpression", "probe.context_stack_depth_ge40", "probe.public_ParseStatement_inside_function_body", "probe.nested_parser_built_from_the_same_builder", "probe.no_statement_party_installed", "probe.no_expression_party_installed", "probe.first_function_under_ge64_plain_blocks"},
+			"C16": {"probe.depth_ge5", "probe.function_body_direct", "probe.funcexpr_in_call_argument", "probe.funcexpr_in_object_value", "probe.funcexpr_in_condition", "probe.final_state_checked_on_erroring_input", "probe.nested_parser_run_inside_interceptor", "probe.builder_reused_for_another_parser", "probe.bailout_recovered_by_outer_interceptor", "probe.bailout_thrown_inside_function_body", "probe.reentrant_via_ParseFunctionExpression", "probe.context_stack_depth_ge40", "probe.public_ParseStatement_inside_function_body", "probe.nested_parser_built_from_the_same_builder", "probe.no_statement_party_installed", "probe.no_expression_party_installed", "probe.first_function_under_ge64_plain_blocks", "probe.plugin_defined_syntax_using_public_parse_helpers", "probe.context_asked_inside_plugin_defined_syntax"},
 		},
 	})
 }
